@@ -301,10 +301,10 @@ def make_run(focus, seed):
         name = rng.choice(names)
         M = 1 if len(osh) == 0 else osh[0]
         # sometimes the previous driver's point again, with other vectors v, w or another driver
-        same_x = c.last_x is not None and rng.random() < 0.3
+        same_x = c.last_x is not None and rng.random() < 0.35
         x = list(c.last_x) if same_x else point(rng, N)
         c.last_x = x
-        if same_x and c.last_drv in names and rng.random() < 0.5:
+        if same_x and c.last_drv in names and rng.random() < 0.6:
             name = c.last_drv       # same driver, same point, other vectors
         c.last_drv = name
         step = {'op': 'drv', 'c': c.idx, 'name': name, 'x': list(x), 'v': None, 'w': None,
